@@ -157,3 +157,90 @@ pub fn answer<T: Canon>(r: std::thread::Result<darling_core::Result<T>>) -> Stri
         Err(_) => "(panic)".to_string(),
     }
 }
+
+macro_rules! canon_toks {
+    ($($t:ty),* $(,)?) => {$(
+        impl Canon for $t { fn canon(&self) -> Sx { tagged("toks", vec![st(toks(self))]) } }
+    )*};
+}
+canon_toks!(
+    syn::Expr, syn::Path, syn::ExprArray, syn::ExprPath, syn::ExprRange, syn::Type, syn::TypeArray, syn::TypeBareFn,
+    syn::TypeGroup, syn::TypeImplTrait, syn::TypeInfer, syn::TypeMacro, syn::TypeNever, syn::TypeParam, syn::TypeParen,
+    syn::TypePath, syn::TypePtr, syn::TypeReference, syn::TypeSlice, syn::TypeTraitObject, syn::TypeTuple,
+    syn::Visibility, syn::WhereClause, syn::Lit, syn::LitInt, syn::LitFloat, syn::LitStr, syn::LitByte, syn::LitByteStr,
+    syn::LitChar, syn::LitBool, proc_macro2::Literal, syn::Meta, darling::util::Callable,
+    syn::punctuated::Punctuated<syn::Path, syn::Token![,]>,
+);
+impl Canon for syn::Ident {
+    fn canon(&self) -> Sx {
+        tagged("toks", vec![st(self.to_string())])
+    }
+}
+impl Canon for darling::util::IdentString {
+    fn canon(&self) -> Sx {
+        tagged("toks", vec![st(self.as_str().to_string())])
+    }
+}
+impl Canon for Vec<syn::WherePredicate> {
+    fn canon(&self) -> Sx {
+        tagged("toks", vec![st(where_preds_toks(self))])
+    }
+}
+pub fn where_preds_toks(ps: &[syn::WherePredicate]) -> String {
+    ps.iter().map(|p| toks(p)).collect::<Vec<_>>().join(" , ")
+}
+impl Canon for darling::util::PathList {
+    fn canon(&self) -> Sx {
+        tagged("list", self.iter().map(|p| tagged("toks", vec![st(toks(p))])).collect())
+    }
+}
+impl Canon for darling::util::Ignored {
+    fn canon(&self) -> Sx {
+        atom("unit")
+    }
+}
+impl Canon for ident_case::RenameRule {
+    fn canon(&self) -> Sx {
+        use ident_case::RenameRule::*;
+        let n = match self {
+            None => "none",
+            LowerCase => "lowercase",
+            PascalCase => "PascalCase",
+            CamelCase => "camelCase",
+            SnakeCase => "snake_case",
+            ScreamingSnakeCase => "SCREAMING_SNAKE_CASE",
+            KebabCase => "kebab-case",
+        };
+        tagged("str", vec![st(n)])
+    }
+}
+fn map_rows<'a, V: Canon + 'a>(it: impl Iterator<Item = (String, &'a V)>) -> Sx {
+    let mut rows: Vec<(String, Sx)> = it.map(|(k, v)| (k, v.canon())).collect();
+    rows.sort_by(|a, b| a.0.cmp(&b.0));
+    tagged("map", rows.into_iter().map(|(k, v)| list(vec![st(k), v])).collect())
+}
+impl<V: Canon> Canon for std::collections::HashMap<String, V> {
+    fn canon(&self) -> Sx {
+        map_rows(self.iter().map(|(k, v)| (k.clone(), v)))
+    }
+}
+impl<V: Canon> Canon for std::collections::BTreeMap<String, V> {
+    fn canon(&self) -> Sx {
+        map_rows(self.iter().map(|(k, v)| (k.clone(), v)))
+    }
+}
+impl<V: Canon> Canon for std::collections::HashMap<syn::Ident, V> {
+    fn canon(&self) -> Sx {
+        map_rows(self.iter().map(|(k, v)| (k.to_string(), v)))
+    }
+}
+impl<V: Canon> Canon for std::collections::BTreeMap<syn::Ident, V> {
+    fn canon(&self) -> Sx {
+        map_rows(self.iter().map(|(k, v)| (k.to_string(), v)))
+    }
+}
+impl<V: Canon> Canon for std::collections::HashMap<syn::Path, V> {
+    fn canon(&self) -> Sx {
+        map_rows(self.iter().map(|(k, v)| (toks(k), v)))
+    }
+}
